@@ -293,3 +293,73 @@ fn c06_any_new_is_memory_mapped_and_reads_the_file() {
     kani::cover!(true, "end of harness reachable");
     std::mem::forget(s);
 }
+
+// ---------------------------------------------------------------------------
+// A shrink followed by a grow (two resize calls with symbolic lengths) and a
+// straddling write followed by an append: the two-call shapes in which a variant
+// that keeps a second copy (memory-mapped) or a cached length (file) can drift
+// from the others. Cheaper than two fully symbolic calls, so they are in the
+// quick tier.
+// ---------------------------------------------------------------------------
+fn c06_shrink_then_grow<S: StorageData>(s: &mut S, r: &mut C06Ref) {
+    c06_same(s, r);
+    let a: usize = kani::any();
+    kani::assume(a <= r.n);
+    ok(s.resize(a as u64));
+    r.resize(a);
+    c06_same(s, r);
+    let b: usize = kani::any();
+    kani::assume(b >= a && b <= a + 2);
+    ok(s.resize(b as u64));
+    r.resize(b);
+    c06_same(s, r);
+    kani::cover!(a < 3 && b > a, "shrunk and grown again");
+    kani::cover!(true, "end of harness reachable");
+}
+
+//@ id=C06 tier=quick timeout=1500 mem=16 bounds="initial file content 0..=3 symbolic bytes; resize to a symbolic smaller-or-equal length, then to a symbolic length up to 2 larger; compared after each call" desc="memory-mapped variant: bytes re-exposed by growing after a shrink read as zeros in memory AND in the file copy, like every other variant" kernel="FileStorageMemoryMapped::resize,FileStorageMemoryMapped::read,FileStorageMemoryMapped::len,MemoryStorage::resize,FileStorage::resize"
+#[kani::proof]
+#[kani::stub(std::fmt::format, crate::verif_support::fmt_stub)]
+#[kani::stub(crate::DbError::new, crate::verif_support::dberror_new_stub)]
+#[kani::stub(<crate::DbError as std::convert::From<std::io::Error>>::from, crate::verif_support::ioerr_stub)]
+#[kani::stub(crate::storage::write_ahead_log::WriteAheadLog::wal_filename, crate::verif_support::wal_name_stub)]
+#[kani::stub(std::vec::from_elem, crate::verif_support::from_elem_stub8)]
+#[kani::unwind(3)]
+fn c06_memory_mapped_shrink_then_grow() {
+    let (mut r, v) = c06_init();
+    std::mem::forget(v);
+    let mut s = ok(FileStorageMemoryMapped::new("db"));
+    c06_shrink_then_grow(&mut s, &mut r);
+    assert!(verif_fs::data_len() == r.n, "C06: memory-mapped variant: file length differs from memory");
+    macro_rules! cmp { ($($i:literal),*) => { $( if $i < r.n { assert!(verif_fs::data_byte($i) == r.d[$i], "C06: memory-mapped variant: file content differs from memory"); } )* }; }
+    cmp!(0, 1, 2, 3, 4, 5);
+    std::mem::forget(s);
+}
+
+//@ id=C06 tier=quick timeout=1500 mem=16 bounds="as above, variant FileStorage" desc="file variant: shrink then grow re-exposes zeros" kernel="FileStorage::resize,FileStorage::read,FileStorage::len"
+#[kani::proof]
+#[kani::stub(std::fmt::format, crate::verif_support::fmt_stub)]
+#[kani::stub(crate::DbError::new, crate::verif_support::dberror_new_stub)]
+#[kani::stub(<crate::DbError as std::convert::From<std::io::Error>>::from, crate::verif_support::ioerr_stub)]
+#[kani::stub(crate::storage::write_ahead_log::WriteAheadLog::wal_filename, crate::verif_support::wal_name_stub)]
+#[kani::stub(std::vec::from_elem, crate::verif_support::from_elem_stub8)]
+#[kani::unwind(3)]
+fn c06_file_storage_shrink_then_grow() {
+    let (mut r, v) = c06_init();
+    std::mem::forget(v);
+    let mut s = ok(FileStorage::new("db"));
+    c06_shrink_then_grow(&mut s, &mut r);
+    std::mem::forget(s);
+}
+
+//@ id=C06 tier=quick timeout=900 bounds="as above, variant MemoryStorage" desc="memory variant: shrink then grow re-exposes zeros" kernel="MemoryStorage::resize,MemoryStorage::read,MemoryStorage::len"
+#[kani::proof]
+#[kani::stub(std::fmt::format, crate::verif_support::fmt_stub)]
+#[kani::stub(crate::DbError::new, crate::verif_support::dberror_new_stub)]
+#[kani::unwind(5)]
+fn c06_memory_storage_shrink_then_grow() {
+    let (mut r, v) = c06_init();
+    let mut s = MemoryStorage::from_buffer("m", v);
+    c06_shrink_then_grow(&mut s, &mut r);
+    std::mem::forget(s);
+}
